@@ -1,6 +1,7 @@
 import OdlModel.Common
 import OdlModel.Model.Deriv
 import OdlModel.Model.DerivLeaves
+import OdlModel.Model.DerivLeafComp
 import OdlModel.Gen.UfuncDeriv
 open OdlModel OdlModel.Deriv
 
@@ -204,11 +205,34 @@ def doLeaf (l : Line) : Option String := do
   | some j =>
     some s!"ok {head} ddom={j.dom} dran={j.ran} dvec={showFs j.dom j.vec} dval={showFs j.ran (j.run d)}"
 
+
+/-! `leafcomp t=<leaf> u=<tree> x=<vec> d=<vec>`: `OperatorComp(leaf, tree)`; the tree at `Rat`, the
+leaf at `Float` on the (exactly converted) inner value.  Answer:
+`ok dom=N ran=N val=<op(x)> dval=<op.derivative(x)(d)>`, `err:deriv dom=N ran=N val=<op(x)>` or
+`err:wf`. -/
+def doLeafComp (l : Line) : Option String := do
+  let t ← l.get? "t"
+  let lf ← parseLeaf (t.splitOn "|")
+  let u ← l.get? "u"
+  let (i, rest) ← parseTree (u.splitOn "|")
+  if !rest.isEmpty then none
+  let xs ← l.rats? "x"
+  let ds ← l.rats? "d"
+  if xs.length ≠ i.dom || ds.length ≠ i.dom then none
+  if !compWf lf i then return "err:wf"
+  let x := vecOf xs
+  let d := vecOf ds
+  let head := s!"dom={i.dom} ran={lf.ran} val={showFs lf.ran (compRun ratFloat lf i x)}"
+  match compDeriv ratFloat lf i x d with
+  | none => some s!"err:deriv {head}"
+  | some v => some s!"ok {head} dval={showFs lf.ran v}"
+
 def handle (l : Line) : Option String :=
   match l.op with
   | "deriv" => doDeriv l
   | "ufunc" => doUfunc l
   | "leaf" => doLeaf l
+  | "leafcomp" => doLeafComp l
   | _ => none
 
 def main : IO Unit := driverLoop handle
